@@ -369,7 +369,7 @@ func (c *ctx) precChain() *leanFile {
 	entry := singleCallee(c.funcDecl("parser", "parseExpression"))
 	unaryFd := c.funcDecl("parser", "parseUnaryExpr")
 	unaryOperand := singleCallee(unaryFd)
-	unaryOK := c.unaryShape(unaryFd)
+	unaryOK, unaryEven := c.unaryShape(unaryFd)
 
 	chain := []tier{}
 	toks := []tierTok{}
@@ -402,7 +402,8 @@ func (c *ctx) precChain() *leanFile {
 	l.p("/-- the tier functions met when following the operand callees from parseExpression (parseUnaryExpr is\n    stepped over); an unrecognised loop shape gives `ops := []`, `leftAssoc := false` -/\ndef precChain : List Tier := %s\n\n", leanLines(q))
 	l.p("/-- callee of parseExpression -/\ndef exprEntry : String := %s\n", leanStr(entry))
 	l.p("/-- callee of parseUnaryExpr -/\ndef unaryOperand : String := %s\n", leanStr(unaryOperand))
-	l.p("/-- parseUnaryExpr wraps as newOperatorNode(\"*\", opnd, newOperandNode(float64(-1))) iff an odd number of '-' was skipped -/\ndef unaryIsTimesMinusOne : Bool := %s\n\n", leanBool(unaryOK))
+	l.p("/-- parseUnaryExpr wraps as newOperatorNode(\"*\", opnd, newOperandNode(float64(-1))) iff an odd number of '-' was skipped -/\ndef unaryIsTimesMinusOne : Bool := %s\n", leanBool(unaryOK))
+	l.p("/-- … and as (opnd * -1) * -1 when a non-zero even number was skipped (the operand is still converted to a number) -/\ndef unaryEvenIsDoubleNegation : Bool := %s\n\n", leanBool(unaryEven))
 	q = nil
 	for _, t := range toks {
 		q = append(q, leanTuple(leanStr(t.Fn), leanPairs(t.Tokens)))
@@ -410,47 +411,54 @@ func (c *ctx) precChain() *leanFile {
 	l.p("/-- token constant ↦ operator string for the token-driven tiers -/\ndef tierTokens : List (String × List (String × String)) := %s\n", leanLines(q))
 	c.facts["precChain"] = map[string]interface{}{
 		"precChain": chain, "exprEntry": entry, "unaryOperand": unaryOperand,
-		"unaryIsTimesMinusOne": unaryOK, "tierTokens": toks,
+		"unaryIsTimesMinusOne": unaryOK, "unaryEvenIsDoubleNegation": unaryEven, "tierTokens": toks,
 	}
 	return l
 }
 
 // unaryShape checks
 //
-//	minus := false
-//	for p.r.typ == itemMinus { p.next(); minus = !minus }
+//	minus, signed := false, false
+//	for p.r.typ == itemMinus { p.next(); minus = !minus; signed = true }
 //	opnd := p.<callee>(n)
-//	if minus { opnd = newOperatorNode("*", opnd, newOperandNode(float64(-1))) }
+//	if minus {
+//		opnd = newOperatorNode("*", opnd, newOperandNode(float64(-1)))
+//	} else if signed {
+//		opnd = newOperatorNode("*", newOperatorNode("*", opnd, newOperandNode(float64(-1))), newOperandNode(float64(-1)))
+//	}
 //	return opnd
-func (c *ctx) unaryShape(fd *ast.FuncDecl) bool {
+//
+// and returns (odd count wraps once as x * -1, even non-zero count wraps twice).
+func (c *ctx) unaryShape(fd *ast.FuncDecl) (bool, bool) {
 	if fd == nil || fd.Body == nil || len(fd.Body.List) != 5 {
-		return false
+		return false, false
 	}
 	recv := recvIdent(fd)
 	ps := params(fd.Type)
 	if recv == nil || len(ps) != 1 || ps[0] == nil {
-		return false
+		return false, false
 	}
 	ss := fd.Body.List
-	// minus := false
+	// minus, signed := false, false
 	a, ok := ss[0].(*ast.AssignStmt)
-	if !ok || a.Tok != token.DEFINE || len(a.Lhs) != 1 || len(a.Rhs) != 1 || !isIdentNamed(a.Rhs[0], "false") {
-		return false
+	if !ok || a.Tok != token.DEFINE || len(a.Lhs) != 2 || len(a.Rhs) != 2 || !isIdentNamed(a.Rhs[0], "false") || !isIdentNamed(a.Rhs[1], "false") {
+		return false, false
 	}
-	minus, ok := a.Lhs[0].(*ast.Ident)
-	if !ok {
-		return false
+	minus, ok1 := a.Lhs[0].(*ast.Ident)
+	signed, ok2 := a.Lhs[1].(*ast.Ident)
+	if !ok1 || !ok2 {
+		return false, false
 	}
-	// for p.r.typ == itemMinus { p.next(); minus = !minus }
+	// for p.r.typ == itemMinus { p.next(); minus = !minus; signed = true }
 	loop, ok := ss[1].(*ast.ForStmt)
-	if !ok || loop.Init != nil || loop.Post != nil || loop.Body == nil || len(loop.Body.List) != 2 {
-		return false
+	if !ok || loop.Init != nil || loop.Post != nil || loop.Body == nil || len(loop.Body.List) != 3 {
+		return false, false
 	}
 	cond, ok := unparen(loop.Cond).(*ast.BinaryExpr)
 	if !ok || cond.Op != token.EQL || !c.isTyp(cond.X, recv) || !isIdentNamed(cond.Y, "itemMinus") {
-		return false
+		return false, false
 	}
-	sawNext, sawFlip := false, false
+	sawNext, sawFlip, sawSigned := false, false, false
 	for _, s := range loop.Body.List {
 		switch x := s.(type) {
 		case *ast.ExprStmt:
@@ -463,51 +471,78 @@ func (c *ctx) unaryShape(fd *ast.FuncDecl) bool {
 					sawFlip = true
 				}
 			}
+			if x.Tok == token.ASSIGN && len(x.Lhs) == 1 && len(x.Rhs) == 1 && c.sameIdent(x.Lhs[0], signed) && isIdentNamed(x.Rhs[0], "true") {
+				sawSigned = true
+			}
 		}
 	}
-	if !sawNext || !sawFlip {
-		return false
+	if !sawNext || !sawFlip || !sawSigned {
+		return false, false
 	}
 	// opnd := p.<callee>(n)
 	o, ok := ss[2].(*ast.AssignStmt)
 	if !ok || o.Tok != token.DEFINE || len(o.Lhs) != 1 || len(o.Rhs) != 1 {
-		return false
+		return false, false
 	}
 	opnd, ok := o.Lhs[0].(*ast.Ident)
 	if !ok {
-		return false
+		return false, false
 	}
 	if _, ok := c.parserCall(o.Rhs[0], recv, ps[0]); !ok {
-		return false
+		return false, false
 	}
-	// if minus { opnd = newOperatorNode("*", opnd, newOperandNode(float64(-1))) }
+	// timesMinusOne(e, inner): e is newOperatorNode("*", inner, newOperandNode(float64(-1)))
+	timesMinusOne := func(e ast.Expr) (ast.Expr, bool) {
+		fn, call, ok := funcCall(e)
+		if !ok || fn != "newOperatorNode" || len(call.Args) != 3 {
+			return nil, false
+		}
+		if lit, ok := strLit(call.Args[0]); !ok || lit != "*" {
+			return nil, false
+		}
+		fn2, call2, ok := funcCall(call.Args[2])
+		if !ok || fn2 != "newOperandNode" || len(call2.Args) != 1 {
+			return nil, false
+		}
+		tv, ok := c.info.Types[call2.Args[0]]
+		if !ok || tv.Value == nil || tv.Type == nil || tv.Type.String() != "float64" {
+			return nil, false
+		}
+		if f, exact := constant.Float64Val(tv.Value); !exact || f != -1 {
+			return nil, false
+		}
+		return call.Args[1], true
+	}
+	// if minus { opnd = x * -1 } else if signed { opnd = (x * -1) * -1 }
 	ifs, ok := ss[3].(*ast.IfStmt)
-	if !ok || ifs.Init != nil || ifs.Else != nil || !c.sameIdent(ifs.Cond, minus) || ifs.Body == nil {
-		return false
+	if !ok || ifs.Init != nil || !c.sameIdent(ifs.Cond, minus) || ifs.Body == nil {
+		return false, false
 	}
 	v, rhs, ok := opAssign(ifs.Body.List)
 	if !ok || !c.sameIdent(v, opnd) {
-		return false
+		return false, false
 	}
-	fn, call, ok := funcCall(rhs)
-	if !ok || fn != "newOperatorNode" || len(call.Args) != 3 || !c.sameIdent(call.Args[1], opnd) {
-		return false
-	}
-	if lit, ok := strLit(call.Args[0]); !ok || lit != "*" {
-		return false
-	}
-	fn2, call2, ok := funcCall(call.Args[2])
-	if !ok || fn2 != "newOperandNode" || len(call2.Args) != 1 {
-		return false
-	}
-	tv, ok := c.info.Types[call2.Args[0]]
-	if !ok || tv.Value == nil || tv.Type == nil || tv.Type.String() != "float64" {
-		return false
-	}
-	if f, exact := constant.Float64Val(tv.Value); !exact || f != -1 {
-		return false
+	inner, ok := timesMinusOne(rhs)
+	if !ok || !c.sameIdent(inner, opnd) {
+		return false, false
 	}
 	// return opnd
 	ret, ok := ss[4].(*ast.ReturnStmt)
-	return ok && len(ret.Results) == 1 && c.sameIdent(ret.Results[0], opnd)
+	if !ok || len(ret.Results) != 1 || !c.sameIdent(ret.Results[0], opnd) {
+		return false, false
+	}
+	odd := true
+	even := false
+	if els, ok := ifs.Else.(*ast.IfStmt); ok && els.Init == nil && els.Else == nil && c.sameIdent(els.Cond, signed) && els.Body != nil {
+		if v2, rhs2, ok := opAssign(els.Body.List); ok && c.sameIdent(v2, opnd) {
+			if in1, ok := timesMinusOne(rhs2); ok {
+				if in2, ok := timesMinusOne(in1); ok && c.sameIdent(in2, opnd) {
+					even = true
+				}
+			}
+		}
+	} else if ifs.Else != nil {
+		return false, false
+	}
+	return odd, even
 }
